@@ -1162,6 +1162,11 @@ struct Explorer {
       if (!s.generator)
         for (auto& o : s.outs)
           if (b0.entries.count(o) && !b1.entries.count(o)) { affected[i] = 1; why[i] = "log record of " + o + " deleted"; }
+      // a declared output that the statement did not declare when the base build ran (the manifest was edited): the log has
+      // no record that says this command line made it
+      if (!s.generator && s0)
+        for (auto& o : s.outs)
+          if (find(s0->outs.begin(), s0->outs.end(), o) == s0->outs.end() && !b1.entries.count(o)) { affected[i] = 1; why[i] = "no log record for the newly declared output " + o; }
       if (!s.depfile.empty() && s.deps.empty() && base.Get(s.depfile) && !cur.Get(s.depfile)) {
         affected[i] = 1; why[i] = "depfile deleted";
       }
